@@ -94,6 +94,15 @@ def adv(cls):
     if ADV is None:
         return cls
     key = (ADV, cls)
+    if key not in _ADV_CACHE and ADV == "tuple_based":
+        # a node class that is also a tuple (the namedtuple + NodeMixin pattern): still one node, not a sequence of nodes
+        class _TupleBase(tuple):
+            def __new__(klass, *a, **k):
+                return tuple.__new__(klass, (1, 2))
+        try:
+            _ADV_CACHE[key] = type(cls.__name__ + "_tuple", (_TupleBase, cls), {})
+        except TypeError:
+            _ADV_CACHE[key] = cls           # classes with non-empty __slots__ cannot derive from tuple
     if key not in _ADV_CACHE:
         ns = {}
         if "__slots__" in cls.__dict__ or any("__slots__" in b.__dict__ for b in cls.__mro__[:-1] if b is not object):
